@@ -78,7 +78,7 @@ def mc_jobs(ctx):
         jobs.append((name, "TopicApiImpl", vlib.cfg_text(spec="FairSpec" if fair else "Spec", constants=c, invariants=invs, properties=props),
                      want, prop, 900))
     big = ctx.thorough
-    mc("machine-handle", "handle", [], MC_ALL, {"L": 11 if big else 9, "MaxS": 3 if big else 2}, "ok")
+    mc("machine-handle", "handle", [], MC_ALL, {"L": 11 if big else 9, "MaxS": 3 if big else 2, "MaxE": 2}, "ok")
     mc("machine-delivery", "delivery", [], MC_ALL, {"L": 9 if big else 7, "Caps": I(1, 2), "MaxM": 3}, "ok")
     mc("machine-net", "net", [], MC_ALL, {"L": 9 if big else 7}, "ok")
     mc("machine-joinopt-repaired", "joinopt", [], MC_ALL, {"JoinOpts": S("", "K")}, "ok")
@@ -203,7 +203,7 @@ def seq_plan(ctx):
     bound; a class larger than its budget is sampled by seed."""
     t = ctx.thorough
     return [
-        ("handle", dict(L=7 if t else 6, Alpha=S(*HANDLE)), 3000, 60000),
+        ("handle", dict(L=7 if t else 6, Alpha=S(*HANDLE), MaxE=2), 3500, 60000),
         ("handle-2topics", dict(L=5 if t else 4, Alpha=S("join", "close", "sub", "cancel", "relay", "unrelay", "psub"), GT=S("A", "B"), MaxH=3, MaxS=3), 1400, 20000),
         ("delivery", dict(L=7 if t else 6, Alpha=S("sub", "cancel", "next", "pub", "close"), Caps=I(1, 2), ProName='"joinA"', MaxS=2, MaxM=5), 3000, 50000),
         ("closed", dict(L=3, Alpha=S("sub", "relay", "evh", "pub", "addb", "lp", "str", "score", "close", "join", "psub", "ppub", "cancel", "next"),
@@ -211,8 +211,8 @@ def seq_plan(ctx):
         ("rejoin", dict(L=4 if t else 3, Alpha=S("sub", "relay", "evh", "pub", "close", "join", "cancel", "next", "unrelay"), ProName='"rejoinA"', Caps=I(1)), 800, 12000),
         ("hidden", dict(L=5 if t else 4, Alpha=S("psub", "ppub", "join", "close", "cancel", "sub", "next", "plp"), Caps=I(1)), 800, 10000),
         ("fanout", dict(L=4, Alpha=S("join", "sub", "cancel", "relay", "pub", "close", "next"), JoinOpts=S("fan"), Caps=I(1)), 1500, 5000),
-        ("validators", dict(L=5 if t else 4, Alpha=S("reg", "unreg", "pub", "next", "ppub", "addb"), Vals=S("accept", "reject", "ignore", "bad", "rejectTo"),
-                            IdFn='"name"', ProName='"subA12"', MaxM=3), 2500, 30000),
+        ("validators", dict(L=5 if t else 4, Alpha=S("reg", "unreg", "pub", "next", "ppub", "addb"), Vals=S("accept", "reject", "ignore", "bad", "rejectTo", "rejectBool", "acceptBool", "rejectV", "ignoreEx", "weird"),
+                            IdFn='"name"', ProName='"subA12"', MaxM=3), 3000, 30000),
         ("validators-handles", dict(L=5 if t else 4, Alpha=S("reg", "unreg", "pub", "join", "close"), Vals=S("reject"), ProName='"joinA"', MaxM=3), 600, 6000),
         ("modes", dict(L=2, Alpha=S("pub", "reg", "next"), Modes=S(*ALLMODES), Vals=S("reject", "acceptTo"), ProName='"subA12"', MaxM=6, **NET), 1500, 3000),
         ("score-floodsub", dict(L=3, Alpha=S("score", "close", "join"), ProName='"joinA"'), 200, 200),
@@ -221,7 +221,7 @@ def seq_plan(ctx):
         ("joinopt", dict(L=5 if t else 4, Alpha=S("join", "close", "pub", "sub", "next"), JoinOpts=S("", "K"), IdFn='"name"', Caps=I(2), MaxM=3), 1500, 8000),
         ("net", dict(L=5 if t else 4, Alpha=S("sub", "cancel", "relay", "unrelay", "rmsg", "pub", "next", "lp"), Caps=I(1), ProName='"joinA"', MaxM=4, **NET), 1000, 9000),
         ("net-validators", dict(L=5 if t else 4, Alpha=S("rmsg", "reg", "unreg", "rel", "next", "cancel"), Caps=I(1),
-                                Vals=S("reject", "ignore", "block1", "block2", "rejectTo", "acceptInl", "rejectInl"), ProName='"subA1"', MaxM=4, **NET), 1000, 9000),
+                                Vals=S("reject", "ignore", "block1", "block2", "rejectTo", "acceptInl", "rejectInl", "rejectBool", "weird"), ProName='"subA1"', MaxM=4, **NET), 1200, 9000),
         ("net-rsub", dict(L=4, Alpha=S("rsub", "pub", "rmsg", "lp", "plp", "relay", "close"), ProName='"joinA"', MaxM=3, NPeers=2, PSubs1=S("A"), PSubs2="{}"), 500, 3000),
     ]
 
@@ -292,7 +292,8 @@ def forced_seq():
             {"o": "reg", "t": "A", "v": "accept"}, {"o": "pub", "h": 1, "m": "m1", "mode": "vd"}, {"o": "rmsg", "p": "p1", "t": "A", "m": "a1"},
             {"o": "unreg", "t": "A"}, {"o": "pub", "h": 1, "m": "m1"}, {"o": "rmsg", "p": "p1", "t": "A", "m": "a1"}, {"o": "pub", "h": 1, "m": "m2"},
             {"o": "rmsg", "p": "p1", "t": "A", "m": "a2"}, {"o": "reg", "t": "A", "v": "ignore", "inl": True}, {"o": "pub", "h": 1, "m": "m3"},
-            {"o": "rmsg", "p": "p1", "t": "A", "m": "a3"}, {"o": "cancel", "s": 1}, {"o": "close", "h": 1}, J(), {"o": "sub", "h": 2, "cap": 2},
+            {"o": "rmsg", "p": "p1", "t": "A", "m": "a3"}, {"o": "cancel", "s": 1}, {"o": "lp", "h": 1}, {"o": "close", "h": 1}, {"o": "lp", "h": 1},
+            {"o": "plp", "t": "A"}, J(), {"o": "sub", "h": 2, "cap": 2},
             {"o": "pub", "h": 2, "m": "m4"}, {"o": "rmsg", "p": "p1", "t": "A", "m": "a4"}, {"o": "unreg", "t": "A"}, {"o": "unreg", "t": "A"},
             {"o": "reg", "t": "A", "v": "block", "conc": 2}, {"o": "rmsg", "p": "p1", "t": "A", "m": "a5"}, {"o": "rmsg", "p": "p1", "t": "A", "m": "a6"},
             {"o": "rmsg", "p": "p1", "t": "A", "m": "a7"}, {"o": "rel"}, {"o": "rmsg", "p": "p1", "t": "A", "m": "a8"}, {"o": "rel"}, {"o": "rel"},
@@ -308,6 +309,15 @@ def forced_seq():
             {"o": "lp", "h": 1}, {"o": "plp", "t": "A"}, {"o": "plp", "t": "B"}, {"o": "rsub", "p": "p2", "t": "A", "pv": False}, {"o": "lp", "h": 1},
             {"o": "pub", "h": 1, "m": "m2"}, {"o": "cancel", "s": 1}, {"o": "rmsg", "p": "p1", "t": "A", "m": "a4"}, {"o": "psub", "t": "B", "cap": 1},
             {"o": "ppub", "t": "B", "m": "m3"}, {"o": "next", "s": 2}, J("B"), {"o": "ppub", "t": "A", "m": "m4"}, {"o": "str", "h": 1}]},
+        # the four validator function types, a result outside the enumeration; two event handlers
+        {"cfg": cfg(idfn="uniq", peers=1), "ops": [
+            J(), {"o": "sub", "h": 1, "cap": 2}, {"o": "reg", "t": "A", "v": "reject", "opt": "bool"}, {"o": "pub", "h": 1, "m": "m1"},
+            {"o": "rmsg", "p": "p1", "t": "A", "m": "a1"}, {"o": "unreg", "t": "A"}, {"o": "reg", "t": "A", "v": "accept", "opt": "bool"}, {"o": "pub", "h": 1, "m": "m2"},
+            {"o": "unreg", "t": "A"}, {"o": "reg", "t": "A", "v": "reject", "opt": "V"}, {"o": "pub", "h": 1, "m": "m3"}, {"o": "unreg", "t": "A"},
+            {"o": "reg", "t": "A", "v": "ignore", "opt": "Ex"}, {"o": "rmsg", "p": "p1", "t": "A", "m": "a2"}, {"o": "unreg", "t": "A"},
+            {"o": "reg", "t": "A", "v": "weird"}, {"o": "pub", "h": 1, "m": "m4"}, {"o": "rmsg", "p": "p1", "t": "A", "m": "a3"}, {"o": "next", "s": 1},
+            {"o": "next", "s": 1}, {"o": "cancel", "s": 1}, {"o": "evh", "h": 1}, {"o": "evh", "h": 1}, {"o": "evcancel", "e": 1}, {"o": "close", "h": 1},
+            {"o": "evcancel", "e": 1}, {"o": "close", "h": 1}, {"o": "evcancel", "e": 2}, {"o": "close", "h": 1}]},
         # fanout-only topic, score parameters on every router flavour
         {"cfg": cfg(router="gossipsub-score"), "ops": [J("A", "fan"), {"o": "relay", "h": 1}, {"o": "sub", "h": 1, "cap": 1}, {"o": "pub", "h": 1, "m": "m1"},
                                                        {"o": "next", "s": 1}, {"o": "score", "h": 1, "v": "valid"}, {"o": "score", "h": 1, "v": "invalid"},
@@ -530,14 +540,16 @@ SEQ_OBLIGATIONS = {
     "publication with no subscription of our own still sent; local-only not sent": ["pubFanoutNoOwnSub", "pubLocalOnlyNotSent", "deliverNoSubs"],
     "publish results": ["pub:closed", "pub:nilkey", "pub:emptypid", "pub:rejected", "pub:ignored", "pubDuplicateOk", "pubMode:key", "pubMode:local",
                         "pubMode:localnilkey", "pubMode:vd", "pubMode:ready2"],
-    "validator registry": ["reg:ok", "reg:duplicate", "reg:badtype", "unreg:ok", "unreg:absent", "regAgainAfterUnreg", "validatorSurvivesRejoin"],
-    "validator invocation contexts and options": ["vc:local", "vc:async", "vc:inline", "vc:async:timeout", "vc:local:timeout", "vc:local:vdata"],
+    "validator registry": ["reg:ok", "reg:duplicate", "reg:badtype", "unreg:ok", "unreg:absent", "regAgainAfterUnreg", "validatorSurvivesRejoin",
+                           "regType:bool", "regType:V", "regType:Ex", "regWeird"],
+    "validator invocation contexts and options": ["vc:local", "vc:async", "vc:inline", "vcTimeout:async", "vcTimeout:local", "vcValidatorData"],
     "validator concurrency boundary": ["parkedBelowConc:0", "parkedBelowConc:1", "throttledAtConc", "released"],
     "remote messages: ignored without interest, relay-only forwarding, duplicate": ["remoteNoInterestIgnored", "relayOnlyForwarded", "subscribedForwarded", "remoteDuplicate"],
     "interest edges by each entry point": ["edge:Join:sub", "edge:Join:psub", "edge:Join:relay", "edge:Leave:cancel", "edge:Leave:unrelay"],
     "SetScoreParams on every router flavour": ["score:ok", "score:invalidparams", "score:closed", "score:notgossipsub", "score:noscoring"],
     "fanout-only": ["relayFanoutOnly"],
-    "ListPeers": ["listPeersNonEmpty"],
+    "ListPeers": ["listPeersNonEmpty", "closedListPeersEmptyWithPeers"],
+    "two event handlers, one cancelled": ["closeBusyLastOfTwoHandlers"],
 }
 
 
@@ -683,7 +695,7 @@ def validate_conc(ctx, r, seen):
     sus = {id(h) for h in hist if same_unrelay_overlap(scns[h[0]["scn"] // 100])}
     hist = [h for h in hist if id(h) not in sus] + [h for h in hist if id(h) in sus]
     n_plain = len(hist) - len(sus)
-    rej, acc, states = vlib.validate_by_cursor(ctx, FAMILY, "TopicApiLin", "TopicApiLin.cfg", hist[:n_plain], chunk=max(60, -(-n_plain // 4)), max_rejects=40, name="tv-conc")
+    rej, acc, states = vlib.validate_by_cursor(ctx, FAMILY, "TopicApiLin", "TopicApiLin.cfg", hist[:n_plain], chunk=max(60, -(-n_plain // 4)), max_rejects=5, name="tv-conc")
     if sus:
         rej_s, acc_s, st_s = vlib.validate_by_cursor(ctx, FAMILY, "TopicApiLin", "TopicApiLin.cfg", hist[n_plain:], chunk=12, max_rejects=12, name="tv-conc-sus")
         rej += [(i + n_plain, k, inv) for (i, k, inv) in rej_s]
@@ -704,16 +716,20 @@ def validate_conc(ctx, r, seen):
             elif l["e"] == "quiet" and l["blocked"]:
                 hits["quiet:blocked"] = hits.get("quiet:blocked", 0) + 1
     if rej:
-        bad = [hist[i] for (i, k, inv) in rej]
-        rej2, acc2, st2 = vlib.validate_by_cursor(ctx, FAMILY, "TopicApiLin", "TopicApiLinAsFound.cfg", bad, chunk=50, max_rejects=40, name="tv-conc-asfound")
-        states += st2
-        still = {i for (i, k, inv) in rej2}
+        # only histories of the input class of finding X09-F2 can be explained by it: ask the as-found model about those
+        cand = [n for n, (i, k, inv) in enumerate(rej) if same_unrelay_overlap(scns[hist[i][0]["scn"] // 100])]
+        explained = set()
+        if cand:
+            bad = [hist[rej[n][0]] for n in cand]
+            rej2, acc2, st2 = vlib.validate_by_cursor(ctx, FAMILY, "TopicApiLin", "TopicApiLinAsFound.cfg", bad, chunk=50, max_rejects=len(bad) + 1, name="tv-conc-asfound")
+            states += st2
+            explained = {cand[j] for j in range(len(cand))} - {cand[i] for (i, k, inv) in rej2}
         for n, (i, k, inv) in enumerate(rej):
             h = hist[i]
             scn = scns[h[0]["scn"] // 100]
             line = h[k] if k < len(h) else {}
             kinds = sorted({l["op"]["o"] for l in h if l["e"] == "call" and l["g"] > 0})
-            if n not in still and same_unrelay_overlap(scn):
+            if n in explained:
                 sig = {"level": "conc", "cause": "relayCancelRace"}
                 detail = ("two overlapping calls of the SAME RelayCancelFunc released two relay references: history of scenario %d (%s) is not linearizable, "
                           "it is explained only by the as-found test-then-set of isCancelled; final state %s" % (scn["id"], scn["cfg"].get("class"), json.dumps(h[-1].get("st"))))
@@ -731,6 +747,45 @@ def validate_conc(ctx, r, seen):
     mid = hist[len(hist) // 2]
     return {"states": gs + states, "transitions": gt + states, "histories": len(hist), "lines": lines, "overlapping": overlap, "classes": classes, "hits": hits,
             "rejected": len(rej), "sample": {"level": "conc", "history": mid[:16]}}
+
+
+def race_stage(ctx, scns):
+    """Thorough tier: the forced concurrent scenarios and a sample of the generated pairs once more under the Go race detector. A report whose two
+    stacks both end in API code of the library is an observation of X09.b (calls are not atomic); the unsynchronised isCancelled flag of
+    RelayCancelFunc is finding X09-F2."""
+    pick = [s for s in scns if s["cfg"].get("class") == "forced"] + [s for s in scns if str(s["cfg"].get("class", "")).startswith("pairs-")][:160]
+    pick = [dict(s, id=i) for i, s in enumerate(pick)]
+    scn_file, outp = os.path.join(ctx.work, "race-scenarios.ndjson"), os.path.join(ctx.work, "race.ndjson")
+    vlib.write_ndjson(scn_file, pick)
+    r = vlib.run_go(ctx, "./drivers/x09/", "^TestX09Conc$", env={"VERIF_IN": scn_file, "VERIF_OUT": outp, "VERIF_REPS": 2}, extra=["-race"], timeout=1500,
+                    name="race", stall=None)
+    out = r["out"]
+    if "WARNING: DATA RACE" not in out and r["rc"] != 0:
+        raise vlib.Inconclusive("race-detector run of TestX09Conc failed (rc=%s, see %s)" % (r["rc"], r["log"]))
+    reports = 0
+    for blk in out.split("WARNING: DATA RACE")[1:]:
+        blk = blk.split("==================")[0]
+        stacks = re.split(r"\n(?=(?:Previous )?(?:[Rr]ead|[Ww]rite) at )", "\n" + blk)
+        tops = []
+        for st in stacks:
+            if not re.match(r"(?:Previous )?(?:[Rr]ead|[Ww]rite) at ", st.strip()):
+                continue
+            st = st.split("\nGoroutine ")[0]
+            fr = [m for m in re.findall(r"^  (\S+)\(\)\s*$", st, re.M) if not m.startswith(("runtime.", "sync.", "sync/atomic."))]
+            if fr:
+                tops.append(fr[0])
+        if len(tops) < 2 or not all("go-libp2p-pubsub." in t and "verifharness" not in t for t in tops):
+            continue          # a race that involves the driver's own code says nothing about the library
+        fns = sorted({t.split("go-libp2p-pubsub.")[-1] for t in tops})
+        reports += 1
+        if fns == ["(*PubSub).handleAddRelay.func1"]:
+            sig = {"level": "conc", "cause": "relayCancelRace"}
+            detail = "race detector: RelayCancelFunc reads and writes its isCancelled flag from two goroutines without synchronisation"
+        else:
+            sig = {"level": "race", "cause": "other", "funcs": fns}
+            detail = "race detector: unsynchronised access from two API calls of the library: %s" % fns
+        vlib.add_violation(ctx, "P_X09_b_Linearizable", sig, detail, {"level": "race", "report": blk[:3000]})
+    return {"scenarios": len(pick), "reports": reports}
 
 
 CONC_OBLIGATIONS = ["close:ok", "close:outstanding", "sub:ok", "sub:closed", "psub:ok", "psub:closed", "relay:ok", "relay:closed", "evh:ok", "evh:closed",
@@ -782,6 +837,9 @@ def run(ctx):
                 "rejected": 0, "sample": {}}
     else:
         conc = validate_conc(ctx, conc_r, seen)
+        if ctx.thorough:
+            conc["race"] = race_stage(ctx, conc_r["scns"])
+            ctx.log("race detector: %d report(s) on %d scenarios" % (conc["race"]["reports"], conc["race"]["scenarios"]))
     ctx.log("TopicApiLin: %d of %d histories not linearizable; failures by signature %s" % (
         conc["rejected"], conc["histories"], json.dumps({k[0] + " " + k[1]: n for k, n in seen.items()})))
     missing = unmet(SEQ_OBLIGATIONS, seq["tags"], "seq") + ["conc: never observed: " + k for k in CONC_OBLIGATIONS if not conc["hits"].get(k)]
@@ -799,7 +857,7 @@ def run(ctx):
            "exhaustive": False,
            "exhaustive_note": "classes whose generator output fits the budget are replayed exhaustively (see seq_classes / conc_classes)",
            "mc": mc_summary, "seq_classes": seq["classes"], "conc_classes": conc["classes"], "seq_scenarios": seq["scenarios"], "seq_lines": seq["lines"],
-           "conc_histories": conc["histories"], "conc_lines": conc["lines"], "conc_not_linearizable": conc["rejected"],
+           "conc_histories": conc["histories"], "conc_lines": conc["lines"], "conc_not_linearizable": conc["rejected"], "race_stage": conc.get("race"),
            "obligation_tags": sorted(seq["tags"]), "result_hits": {"seq": seq["hits"], "conc": conc["hits"]},
            "failures_by_signature": {k[0] + " " + k[1]: n for k, n in seen.items()}}
     return vlib.finish(ctx, LEVEL, cov, [
